@@ -116,7 +116,15 @@ def plan(ctx):
             shapes = p0 + p1 + fam.select(p2, 6000, ctx.seed, name) + fam.select(fam.prop(3), 1500, ctx.seed, name)
         # split per logic into chunks for load balance
         n = 4 if ctx.quick else 16
-        for k in range(n):
+        if ctx.quick:
+            # both option flags symbolic on P(0), P(1); default options on the P(2) selection
+            small = p0 + p1
+            rest = [x for x in shapes if x not in set(small)]
+            for k in range(n):
+                units.append((name, small[k::n], ctx.seed, True))
+            units.append((name, rest, ctx.seed, False))
+            shapes = []
+        for k in range(n if shapes else 0):
             units.append((name, shapes[k::n], ctx.seed, True))
         # directed family: depth-1 sentence against depth-1 sentence (default options)
         d1 = fam.depth1_pairs()
@@ -156,7 +164,7 @@ def run(ctx):
         shapes_times_logics=shapes, z3_valid=valid, z3_invalid=invalid,
         bounds=dict(family='P(0), P(1) complete, 100 of P(2) per logic by seed, 342 depth-1 pairs (default options)' if ctx.quick
                     else 'P(0), P(1) complete, 6000 of P(2) and 1500 of P(3) per logic by seed',
-                    letters='<= 3', premises='<= 2', options='both optimisation flags symbolic (4 paths)',
+                    letters='<= 3', premises='<= 2', options='both optimisation flags symbolic (4 paths) on P(0), P(1) (thorough: everywhere); default otherwise',
                     order_seed=ctx.seed),
         solver=stats.asdict(),
         functions_executed=['Tableau.build/step/next/_get_group_application', 'all operator rules of each logic',
